@@ -4,6 +4,7 @@
 -/
 import AuthProofs.Trigger
 import AuthProofs.Splitter
+import AuthProofs.CodeEquiv
 namespace AuthProps.C07
 open AuthModel AuthModel.Str
 
@@ -55,6 +56,34 @@ example : mustTrigger (fun _ _ => false) [cssRule] (B "/admin#.css") = true := b
 example : mustTrigger (fun _ _ => false) [cssRule] (B "/site.css") = false := by decide
 example : ∀ b ∈ (B "/admin"), b ≠ 63 ∧ b ≠ 35 := by decide
 
+/-! ### The same statements about the code as translated from /repo (AuthModel/Generated/CodeAuthz.lean) -/
+
+/-- `mustTriggerCheck`, `matchTriggerRule`, `stringMatch` and `GetPathQueryFragment` AS TRANSLATED FROM THE GO SOURCE
+    on this run never panic and decide exactly the documented function of the path component of the request's
+    `:path`: for every rule list (nil rules included), every request (absent parts included), every regex oracle. -/
+theorem code_trigger_spec (env : Go.Env) (rules : List Pb.TriggerRule) (req : Pb.CheckRequest) :
+    ∃ b, Code.mustTriggerCheck env rules req = .ok b ∧
+      (b = true ↔ Triggered (reOf env) (rules.map ruleOf) (pathOf (httpOf req).GetPath)) :=
+  ⟨_, code_mustTriggerCheck env rules req, mustTrigger_iff _ _ _⟩
+
+/-- On the translated code: two requests whose targets have the same path component get the same decision, so
+    nothing appended after `?` or `#` changes it. -/
+theorem code_decision_depends_on_path_only (env : Go.Env) (rules : List Pb.TriggerRule) (r₁ r₂ : Pb.CheckRequest)
+    (h : pathOf (httpOf r₁).GetPath = pathOf (httpOf r₂).GetPath) :
+    Code.mustTriggerCheck env rules r₁ = Code.mustTriggerCheck env rules r₂ := by
+  rw [code_mustTriggerCheck, code_mustTriggerCheck, mustTrigger_path_only _ _ _ _ h]
+
+/-- On the translated code: the splitter returns (path, query, fragment) of the `cut` formulation for every byte
+    string, none of its eight slice expressions going out of bounds. -/
+theorem code_splitter (env : Go.Env) (s : Str) : Code.GetPathQueryFragment env s = .ok (pqf s) := code_pqf env s
+
+/- Non-vacuity on the translated code: the bypass attempt of the original defect, evaluated by the kernel. -/
+def cssRulePb : Pb.TriggerRule := { ExcludedPaths := [{ MatchType := .Suffix ⟨B ".css"⟩ }] }
+def reqWithPath (p : Str) : Pb.CheckRequest := { Attributes := { Request := { Http := { Path := p } } } }
+example : Code.mustTriggerCheck {} [cssRulePb] (reqWithPath (B "/admin?x=.css")) = .ok true := by decide
+example : Code.mustTriggerCheck {} [cssRulePb] (reqWithPath (B "/site.css")) = .ok false := by decide
+example : Code.mustTriggerCheck {} [cssRulePb] { isNil := true } = .ok true := by decide
+
 end AuthProps.C07
 
 #print axioms AuthProps.C07.trigger_spec
@@ -64,3 +93,6 @@ end AuthProps.C07
 #print axioms AuthProps.C07.query_fragment_irrelevant
 #print axioms AuthProps.C07.decision_depends_on_path_only
 #print axioms AuthProps.C07.splitter_total
+#print axioms AuthProps.C07.code_trigger_spec
+#print axioms AuthProps.C07.code_decision_depends_on_path_only
+#print axioms AuthProps.C07.code_splitter
